@@ -178,11 +178,15 @@ pub fn argon2_params(id: u32) -> argon2::Params {
 }
 impl KsfSel for argon2::Argon2<'static> {
     const FAMILY: &'static str = "argon2";
+    /// 0 = the default instance; 1 = Argon2id v0x13 with small cost; 2 = another cost; 3, 4, 5 = the cost of 1 but
+    /// Argon2i / version 0x10 / keyed with a secret ("pepper"): instances that differ in more than the cost
     fn make(id: u32) -> Self {
-        if id == 0 {
-            argon2::Argon2::default()
-        } else {
-            argon2::Argon2::new(argon2::Algorithm::Argon2id, argon2::Version::V0x13, argon2_params(id))
+        match id {
+            0 => argon2::Argon2::default(),
+            3 => argon2::Argon2::new(argon2::Algorithm::Argon2i, argon2::Version::V0x13, argon2_params(1)),
+            4 => argon2::Argon2::new(argon2::Algorithm::Argon2id, argon2::Version::V0x10, argon2_params(1)),
+            5 => argon2::Argon2::new_with_secret(b"pepper-pepper", argon2::Algorithm::Argon2id, argon2::Version::V0x13, argon2_params(1)).expect("argon2 secret"),
+            _ => argon2::Argon2::new(argon2::Algorithm::Argon2id, argon2::Version::V0x13, argon2_params(id)),
         }
     }
 }
